@@ -10,7 +10,8 @@ var extraClauses = map[string][]string{
 	"C02": {"full-reader (shared with C01/C15): every store to Decoder.rd wraps the reader in fullReader", "inflate-status: the success return of decompress carries the zlib reader's terminal status (Close() result or the probe's error), so a corrupt/truncated trailer is rejected"},
 	"C03": {"read-error-consumed: the error result of every stream read in proto/util reaches a test, a return or a store (no discarded or shadowed error)",
 		"forge-short-layout (P6b bit-slice provenance): ReadExtendedForgeShort returns value bits 0..14 from the short's low 15 bits and bits 15..22 from the continuation byte, the 0x8000 marker never reaching the value, and WriteExtendedForgeShort places them the same way"},
-	"C04": {"forge-short-layout (P6b bit-slice provenance): Read/WriteExtendedForgeShort place every value bit where the other side takes it from, the flag bit is set exactly when the third byte follows"},
+	"C04": {"forge-short-layout (P6b bit-slice provenance): Read/WriteExtendedForgeShort place every value bit where the other side takes it from, the flag bit is set exactly when the third byte follows",
+		"reference-wire with typed tokens: the Encode language of every registered packet type at every released protocol equals the committed reference (/verif/reference/packet_wire.json); a boolean (WriteBool/ReadBool) is its own token — a byte read accepts it, a byte written through it is a lossy projection — so a byte-valued field squashed to a boolean on both sides (which byte-level inclusion cannot see) differs from the reference"},
 	"C05": {"recover-converts-errors: every re-panic in util.Recover lies behind the failed r.(error) assertion (runtime errors are converted, not re-thrown)", "bailout-alive: no loop on a decode path exits on a progress flag that is carried across iterations and only ever set to true (the one structural hang pattern decided; termination in general is not)"},
 	"C06": {"reference-ids: every (state, direction, type, protocol) cell of /verif/reference/packet_ids.json keeps its id (ids of released protocol versions are immutable)"},
 	"C08": {"join-confirmed: AuthenticateJoin reports an online-mode result only on the HTTP status == 200 edge"},
@@ -18,9 +19,11 @@ var extraClauses = map[string][]string{
 	"C12": {"lock-released: every Proxy / players method that takes a registry mutex releases it on all exits"},
 	"C13": {"fired-with-drain: isLoginEventFired is set to true once, in the critical section that drains the queued login plugin messages", "lock-released for loginInboundConn"},
 	"C14": {"queue-reconciled: SetState and SetOutboundState call ensurePlayPacketQueue(new.State) unconditionally under c.mu", "lock-released for package netmc"},
-	"C15": {"full-reader (shared with C01): the decoder's reader is always the fullReader wrapper"},
+	"C15": {"scratch-buffer-empty: a buffer handed out by bufpool.(*Pool).Get is empty — a fresh one is made with length 0 (capacity free), a pooled one was Reset before sync.Pool.Put — because the frame encoder sends the whole content of the scratch buffer it builds a relayed frame in", "full-reader (shared with C01): the decoder's reader is always the fullReader wrapper"},
 	"C17": {"exclusion-alive: no instruction that may store nil into connInFlight / connectedServer_ (directly or through a callee, nil arguments propagated) flows to a call of nextServerToTry — the 'skip the current / in-flight server' exclusions must still see those servers",
 		"host-clean by string shape: the value ClearVirtualHost returns is its parameter cut at NUL and at /// (Split(..)[0], SplitN(..)[0], Cut and helpers around them are one operation)"},
+	"C22": {"error-no-command/bearing-return-behind-err-nil: every command-bearing return reachable after executeCommand lies behind its err == nil edge (a failed proxy command must not fall through to the forwarding return)"},
+	"C20": {"mac-covers-payload also in streaming form: with io.MultiWriter(buf, mac) no write may go to the buffer (or the MAC) alone and nothing is written through it after Sum"},
 	"C16": {"lock-released for connectedPlayer / connectionRequest", "server-equality: RegisteredServer values are never compared with == (always RegisteredServerEqual)"},
 	"C18": {"lock-released for serverConnection", "recorded-on-own-connection: recordBackendKeepAlive is handed the handler's own serverConn field"},
 	"C21": {"last-seen-adopted: in the session chat/command continuations the queue's fixed last-seen update is stored into the packet/builder before anything is returned on the paths where it is non-nil", "lock-released for chatQueue"},
